@@ -24,7 +24,7 @@ ENTRY_KINDS = ['route', 'tuple', 'class']
 def strategy():
     from hypothesis import strategies as st
     route = st.tuples(st.sampled_from(PATTERNS), st.sampled_from(METHODS), st.sampled_from(BEH),
-                      st.sampled_from(ENTRY_KINDS), st.one_of(st.none(), st.integers(0, 4)))
+                      st.sampled_from(ENTRY_KINDS), st.one_of(st.none(), st.integers(-3, 5)))
     return st.fixed_dictionaries({
         'mode': st.sampled_from(list(U.MODES)),
         'build': st.sampled_from(['list', 'add']),
